@@ -49,6 +49,7 @@ type FuncContract struct {
 	Insts    map[string][]Expr // "callee.ghost" -> explicit instantiations at call sites in this function
 	OnReturn []*GhostSet       // ghost updates that take effect when the function returns
 	LockAssumes []*Clause      // assumed right after each lock acquisition in this function (listed as assumptions)
+	NoChan   bool // promises (and is checked) not to send/receive on any channel; otherwise callers lose all channel counters
 	Trusted  bool // contract assumed, body not verified
 	MayPanic bool
 	Extern   bool
@@ -120,7 +121,7 @@ var topKeywords = map[string]bool{"func": true, "extern": true, "pred": true, "g
 	"lemma": true, "axiom": true, "benign": true, "fn": true, "immutable": true, "constructors": true, "ghostgroup": true}
 var clauseKeywords = map[string]bool{"props": true, "arith": true, "requires": true, "ensures": true,
 	"modifies": true, "loop": true, "invariant": true, "decreases": true, "unroll": true, "trusted": true,
-	"maypanic": true, "guarantee": true, "guards": true, "ghostparam": true, "inst": true, "onreturn": true, "lockassume": true, "assume": true}
+	"maypanic": true, "guarantee": true, "guards": true, "ghostparam": true, "inst": true, "onreturn": true, "lockassume": true, "assume": true, "nochan": true}
 
 type logicalLine struct {
 	kw   string
@@ -534,6 +535,8 @@ func (cs *Contracts) loadFile(path, pkgPath string) error {
 			curLock.Assumes = append(curLock.Assumes, c)
 		case "trusted":
 			curFunc.Trusted = true
+		case "nochan":
+			curFunc.NoChan = true
 		case "maypanic":
 			curFunc.MayPanic = true
 		case "requires", "ensures":
